@@ -396,6 +396,7 @@ fn main() {
          beyond it, one representative history per distinct state (reference content + token-chain shape) is extended, up to `dedup_depth`; \
          each history runs on a fresh wrapper + fresh InMemory reference, then the read battery runs on the warm and on a cold wrapper instance; \
          distinct = (wrapper config, resulting state, last op shape, its result class); \
+         commit times: under the logical clock no commit (put, multipart, copy, rename target; full and light phases, one and two instances) may report a last_modified earlier than the one reported by any earlier commit of the history - the reference stamps every commit, copies included, when it commits; \
          light phases (no read battery; every mutation class, the CAS / create rule, token freshness and the final content through a fresh instance are checked): token-flow histories (overwrite / Update latest / Update stale / every copy incl. self-copy / rename / delete) over 3 keys and, one deeper, over 2 keys, all exhaustive; two-instance histories over keys a, c where every operation after the first is issued through long-lived instance A or B (every assignment), one InMemory reference receiving all operations - reads through the long-lived instances are not compared (a second instance's cache may lag by design), write-side decisions must equal the reference's; \
          three reference behaviours are normalised and counted in `tolerated_deviations` instead of compared: delete of a missing key (wrapper NotFound, InMemory Ok; store-dependent per object_store docs), self-rename with Overwrite (InMemory's default copy+delete destroys the object; modelled as no change) and Update without e_tag on a present key (InMemory Generic, wrapper Precondition; both reject)",
     );
